@@ -23,6 +23,11 @@ open Litestream.Fs
     no final name is ever a rename source (by evaluation of what the code says now). -/
 theorem gen_protocols_killOK : ∀ p ∈ Gen.publishProtocols, killOK (traceOf p) = true := by decide
 
+/-- The `recover` model's first step is what the code does: `DB.Open` calls `removeTmpFiles(db.metaPath)`
+    on its success path before the DB is marked opened, and `removeTmpFiles` removes the `.tmp` names
+    (regenerated fact; the kill engine additionally checks that no `*.tmp` survives `Open`). -/
+theorem gen_open_removes_tmp : Gen.openRemovesTmp = true := by decide
+
 /-- **General form.** In any history the kill-only acceptor accepts, at every instant `k`, every final
     name that is visible shows a file whose content is already complete (it is never written again). -/
 theorem kill_no_partial (tr : List Event) (h : killOK tr = true) :
